@@ -1,10 +1,10 @@
 SPECIFICATION Spec
 CONSTANTS
   N = 3
-  FlushEach = FALSE
+  FlushEach = TRUE
   ReadAhead = FALSE
-  Shape = "bidi"
-  FlushShapes = {"bidi", "cstream"}
+  Shape = "cstream"
+  FlushShapes = {"bidi"}
   Buffered = FALSE
 INVARIANT TypeOK
 INVARIANT NoHiddenBuffering
